@@ -14,6 +14,8 @@ pub const INJECT: &[(&str, &[u8])] = &[
     ("u00c3-u00ad", &[0xC3, 0x83, 0xC2, 0xAD]),
     ("u00e2-u00a2-u00ac", &[0xC3, 0xA2, 0xC2, 0xA2, 0xC2, 0xAC]),
     ("space", &[0x20]),
+    ("equals", &[0x3D]),
+    ("double-equals", &[0x3D, 0x3D]),
     ("lone-continuation", &[0x80]),
     ("dquote", &[0x22]),
     ("backslash", &[0x5C]),
@@ -67,7 +69,8 @@ pub fn single_faults(seed: &[u8], fam: Families, f: &mut dyn FnMut(&[u8], &'stat
     if fam.bytes {
         for i in 0..n {
             let old = buf[i];
-            for v in [0x00u8, 0xFF, 0x7F, 0x80] {
+            // extremes plus the small enumeration codes (address family, class bits) a single bit flip cannot reach
+            for v in [0x00u8, 0xFF, 0x7F, 0x80, 0x01, 0x02] {
                 buf[i] = v;
                 emit(&buf, "byte-substitution", &mut count);
             }
@@ -90,7 +93,8 @@ pub fn single_faults(seed: &[u8], fam: Families, f: &mut dyn FnMut(&[u8], &'stat
             for t in &p.tlvs {
                 let len = t.value.len();
                 let to_end = n - (t.off + 4);
-                for x in [0usize, 1, len.wrapping_sub(1), len + 1, len + 4, to_end, 0xFFFF] {
+                // relative edits plus the fixed sizes other attribute kinds use (2, 4, 8, 20, 32)
+                for x in [0usize, 1, len.wrapping_sub(1), len + 1, len + 4, to_end, 0xFFFF, 2, 4, 8, 20, 32] {
                     let mut m = seed.to_vec();
                     set_u16(&mut m, t.off + 2, x & 0xFFFF);
                     emit(&m, "attribute-length", &mut count);
